@@ -1,4 +1,5 @@
 import PtnModel.Proofs.EvoTdvp
+import PtnModel.Proofs.EvoExample
 /-!
 # C08 — real-time TDVP conserves norm and energy; structure of the integrators
 
@@ -189,5 +190,60 @@ theorem tdvp1_norm_energy {k : EvoKernels 𝕜 ℝ} {H : MPO 𝕜} {ψ ψ' : MPS
   · rw [normSq_real] at hn
     exact_mod_cast hn
   · rw [(start_energy ctx.qr hadm ho H).1, hE', hE1]
+
+/-! ## non-vacuity
+
+Concrete objects (`PtnModel/Proofs/EvoExample.lean`): kernels `exK` over `ℂ` (QR kernel `Ortho.realQR`, 2-norm, the
+eigen-decomposition of `1 × 1` matrices, `dexp ≡ 1`, `half = 1/2`), the Hermitian two-site MPO `exOC = Z ⊗ 1 + 1 ⊗ Z`, the
+admissible two-site state `Ortho.exψC = |01⟩ + i|10⟩`, the genuinely complex Hermitian one-site operator
+`exW = [[1, i], [-i, -1]]` between trivial blocks with start tensor `exA = (1, 0)`, the `1 × 1` bond matrix `exC`.
+With one Lanczos iteration the per-run contract `C15.EighAt` holds for every map (`eighAt_one`).
+
+The hypothesis "the integrator returns `.ok`" of the driver-level theorems is witnessed by the runs of the
+correspondence check (`harness/props/c08.py`, model side over Gaussian rationals), not by a Lean term over `ℂ`; the
+examples below show that all *other* hypotheses of those theorems are jointly satisfiable, and that the hypotheses of
+the local theorems including the successful run are jointly satisfiable. -/
+
+/-- hypotheses of `tdvp1_returns_norm`, `tdvp2_returns_norm`, `tdvp1_only_psi`, `tdvp2_only_psi`, `tdvp1_bond_mono`
+(other than the run) -/
+example : C01.QRKernel exK.dqr ∧ (∀ B, ShapeAt exK.dqr B) ∧ Admissible exψC :=
+  ⟨⟨realQR_contract, realQR_realDiag⟩, realQR_contract.shape, exψC_adm⟩
+
+/-- hypotheses of `tdvp1_norm_energy` (other than the run): kernel contracts, Hermitian shaped MPO, admissible state,
+`|dexp(i x)| = 1`, real `half`, purely imaginary `dt` -/
+example : SweepCtx exK exOC exψC.qd 1 ∧ (∀ x : ℝ, ‖exK.dexp (RCLike.I * (x : ℂ))‖ = 1) ∧
+    exK.half = (((1 / 2 : ℝ) : ℝ) : ℂ) ∧ Admissible exψC ∧ exOC.A.length = exψC.A.length ∧
+    ∃ τ : ℝ, (Complex.I : ℂ) = RCLike.I * ((τ : ℝ) : ℂ) :=
+  ⟨exK_ctx, exK_exp, rfl, exψC_adm, rfl, 1, by simp⟩
+
+/-- hypotheses of `local_step_unitary` / `local_step_energy` including the successful run -/
+example : ∃ A1 : T3 ℂ, NormContract exK.cnorm ∧ LocalFits (ones111 : T3 ℂ) ones111 exW exA.d0 exA.d1 exA.d2 ∧
+    LocalHermitian (ones111 : T3 ℂ) ones111 exW exA.d0 exA.d1 exA.d2 ∧
+    C15.EighAt (localHFun (ones111 : T3 ℂ) ones111 exW exA.d0 exA.d1 exA.d2) exK.cnorm exK.deigh (flat3 exA) 1 ∧
+    (∀ x : ℝ, ‖exK.dexp (RCLike.I * (x : ℂ))‖ = 1) ∧
+    -(-(RCLike.I * (((1 : ℝ) : ℝ) : ℂ))) = RCLike.I * (((1 : ℝ) : ℝ) : ℂ) ∧
+    localHamiltonianStep exK ones111 ones111 exW exA (-(RCLike.I * (((1 : ℝ) : ℝ) : ℂ))) 1 = .ok A1 := by
+  obtain ⟨A1, h⟩ := localStep_ok_one (k := exK) rfl (L := ones111) (R := ones111) (W := exW) exA_pos
+    (-(RCLike.I * (((1 : ℝ) : ℝ) : ℂ)))
+  exact ⟨A1, sqrtNorm_contract, exLocal_fits, exLocal_herm, eighAt_one _ _ _, exK_exp, neg_neg _, h⟩
+
+/-- hypotheses of `bond_step_unitary` / `bond_step_energy` including the successful run -/
+example : ∃ C1 : Mat ℂ, NormContract exK.cnorm ∧ BondFits (ones111 : T3 ℂ) ones111 exC.m exC.n ∧
+    BondHermitian (ones111 : T3 ℂ) ones111 exC.m exC.n ∧
+    C15.EighAt (localBondFun (ones111 : T3 ℂ) ones111 exC.m exC.n) exK.cnorm exK.deigh (flat2 exC) 1 ∧
+    -(-(RCLike.I * (((1 : ℝ) : ℝ) : ℂ))) = RCLike.I * (((1 : ℝ) : ℝ) : ℂ) ∧
+    localBondStep exK ones111 ones111 exC (-(RCLike.I * (((1 : ℝ) : ℝ) : ℂ))) 1 = .ok C1 := by
+  obtain ⟨C1, h⟩ := bondStep_ok_one (k := exK) rfl (L := ones111) (R := ones111) exC_pos
+    (-(RCLike.I * (((1 : ℝ) : ℝ) : ℂ)))
+  exact ⟨C1, sqrtNorm_contract, exBond_fits, exBond_herm, eighAt_one _ _ _, neg_neg _, h⟩
+
+/-- hypotheses of `local_of_blocks`, `bond_of_blocks`, `bond_projection_rect`: blocks of the shaped MPS `exψC` with the
+Hermitian MPO `exOC` exist (the initial left block and the right blocks computed by the model) -/
+example : C04.MPS.Shaped exψC 2 ∧ C04.MPO.Shaped exOC 2 ∧ C04.MPO.DenseHermitian exOC 2 ∧
+    (∃ Lb : T3 ℂ, IsLeftBlock exψC exOC 2 0 Lb) ∧ ∃ Rb : T3 ℂ, IsRightBlock exψC exOC 2 1 Rb := by
+  have hψ : C04.MPS.Shaped exψC 2 := ⟨exψC_adm.nonempty, exψC_adm.chain3⟩
+  obtain ⟨BR, _, _, h⟩ := C04.right_blocks_dense hψ exOC_shaped rfl
+  obtain ⟨E, _, hE⟩ := h 0 (by decide)
+  exact ⟨hψ, exOC_shaped, exOC_herm, ⟨_, C04.left_block_zero_dense hψ exOC_shaped rfl⟩, E, hE⟩
 
 end Ptn.C08
